@@ -30,7 +30,10 @@ Definition arg := option body.              (* what a consumer receives: Some da
 Inductive consumer :=
 | CPlain (tag : N)                          (* records (tag, argument) *)
 | CSendMore (tag : N) (k : nat)             (* records, then sends k more messages with CPlain consumers *)
-| CRelay (bid : Z).                         (* forgeRelayConsumer for backend message id bid *)
+| CRelay (bid : Z)                          (* forgeRelayConsumer for backend message id bid *)
+| CFail (tag : N).                          (* records (tag, argument), then returns an error: the message
+                                               counts as answered all the same (the error is only joined
+                                               into handleLoginPluginResponse's return value) *)
 
 Record rlocal := mkLocal {
   l_id : Z;                                 (* send: id := sequenceCounter.Inc() *)
@@ -149,7 +152,7 @@ Definition r_consume (r : nat) (s : state) : state * list event :=
   | Some (id, k, a) =>
       let s0 := set_local s r (mkLocal (l_id l) (l_fired l) None (l_hit l) (l_done l) (l_cb l) (l_msgs l)) in
       match k with
-      | CPlain _ => (s0, [ECons id k a])
+      | CPlain _ | CFail _ => (s0, [ECons id k a])
       | CRelay bid => (s0, [ECons id k a; EBackend id bid a])
       | CSendMore tag n => let '(s1, e1) := send_more n tag s0 in (s1, ECons id k a :: e1)
       end
@@ -249,6 +252,7 @@ Definition consumer_eqb (a b : consumer) : bool :=
   | CPlain x, CPlain y => N.eqb x y
   | CSendMore x n, CSendMore y m => N.eqb x y && Nat.eqb n m
   | CRelay x, CRelay y => Z.eqb x y
+  | CFail x, CFail y => N.eqb x y
   | _, _ => false
   end.
 
